@@ -780,6 +780,17 @@ int32_t tlsVerify(ssl_t *ssl,
         }
         sigAlgTls = *c << 8; c++;
         sigAlgTls += *c; c++;
+        /* The peer must sign with one of the algorithms we listed in
+           signature_algorithms (ssl->supportedSigAlgs), as in
+           tls13ParseCertificateVerify. */
+        if (findFromUint16Array(ssl->supportedSigAlgs,
+                        ssl->supportedSigAlgsLen,
+                        sigAlgTls) < 0)
+        {
+            psTraceErrr("Peer signed with a signature algorithm " \
+                    "we did not offer\n");
+            goto out_illegal_parameter;
+        }
         if (tlsIsSupportedRsaSigAlg(sigAlgTls))
         {
             useRsa = PS_TRUE;
